@@ -3,6 +3,7 @@ import Rv.Oracle.Cache
 import Rv.Oracle.Event
 import Rv.Oracle.Auth
 import Rv.Oracle.Proxy
+import Rv.Oracle.Certs
 /-
   Rv.Oracle — dispatch of op lines to the stateless and stateful model drivers.
 -/
@@ -13,6 +14,7 @@ structure OState where
   ev : Event.EState := {}
   au : Auth.AState := {}
   px : Proxy.PState := {}
+  ce : Certs.CState := {}
 
 def splitArrow : List String → List String → (List String × String)
   | [], acc => (acc.reverse, "")
@@ -34,6 +36,9 @@ def step (os : OState) (line : String) : OState × String :=
   | "px" :: _ =>
     let (p, m, v) := Proxy.step os.px fs obs
     ({ os with px := p }, m ++ "\t" ++ v)
+  | "ce" :: _ =>
+    let (c, m, v) := Certs.step os.ce fs obs
+    ({ os with ce := c }, m ++ "\t" ++ v)
   | "ls" :: _ =>
     -- C14: the theorem says every schedule completes; the model observation is the constant "completed"
     (os, "completed\t" ++ (if obs = "completed" then "ok" else if obs.startsWith "HANG" then "bad:operation-does-not-complete" else "bad:" ++ obs))
